@@ -576,6 +576,31 @@ def cyl_conversion(db, cx):
         m = re.search(r"Axis::([xyz])>", f.inst)
         cx.require(m, "QuadricCylConverter instantiation without an axis: %s" % f.inst)
         t = "xyz".index(m.group(1))
+        # the interpretation below *assumes* the axial second- and first-order coefficients to be
+        # zero: the converter must test exactly that (against literal 0) before it converts -
+        # seeded change c12f replaced the axial first-order test by a relative one, which lets an
+        # off-axis paraboloid through as an infinite cylinder
+        tested = {"second": False, "first": False}
+        ax = "(celeritas::Axis)%d" % t
+        for (_b, _i, ev) in f.events("call"):
+            if ev["callee"] != C + "SoftEqual::operator()" or len(ev.get("args", [])) != 2:
+                continue
+            a0, a1 = ev["args"]
+            for x, y in ((a0, a1), (a1, a0)):
+                if x.get("lit") in ("0", "0.0") and ("to_int(%s)" % ax) in (y.get("t") or "").replace(" ", "").replace("(celeritas::Axis)", "(celeritas::Axis)"):
+                    ch = (y.get("path") or {}).get("chain", [])
+                    if "m:" + C + "SimpleQuadric::first" in ch or ".first()" in (y.get("t") or ""):
+                        tested["first"] = True
+                    elif "second" in (y.get("t") or ""):
+                        tested["second"] = True
+        for k_ in ("second", "first"):
+            cx.ob("C12.6-cyl-conversion",
+                  "QuadricCylConverter<%s>: the %s-order coefficient along the axis is tested against 0" % (m.group(1), k_),
+                  tested[k_], "" if tested[k_] else "no soft_equal_(0, %s[T]) guard" % k_, short(f.loc),
+                  why="a quadric with a term along the candidate axis is a paraboloid / cone, not a "
+                      "cylinder: converting it changes the point set")
+        if not (tested["first"] and tested["second"]):
+            continue
         e = [Poly.sym("e%d" % i) if i != t else Poly() for i in range(3)]
         second = [a if i != t else Poly() for i in range(3)]
 
